@@ -220,6 +220,12 @@ def yaxis_from_shape(
 
     if ndim != 3:
         raise ValueError("Can only work with 2-d or 3-d data")
+    if gbox is not None:
+        # geobox knows best, shape heuristic is only needed when both layouts match
+        yxs, syx = gbox.shape == shape[:2], gbox.shape == shape[1:]
+        if yxs != syx:
+            return ("YXS", 0) if yxs else ("SYX", 1)
+
     if shape[-1] in (3, 4):  # YXS in RGB(A)
         return "YXS", 0
 
